@@ -1,3 +1,809 @@
 package main
 
-func c17RacePass() {}
+// C17 — template rendering is pure, repeatable and safe to use concurrently.
+//
+//  part S  BFS over load / load-from-document / render / remove / clear histories on one
+//          real TemplateEngine.  Oracle: the result of Render(T) equals the result, on a
+//          fresh engine, of the minimal history that loads exactly the versions T was bound
+//          to when it was loaded (differential, no hand-written expected value); rendering
+//          twice gives equal results; template object, data and base document are unchanged.
+//  part C  schedx: 2-3 goroutines on one engine, every schedule with <= 2 preemptions; the
+//          tuple of results must be the tuple of some sequential order of the same calls.
+//  part R  free-running -race build of the same bodies (detection only).
+
+import (
+	"encoding/json"
+	"fmt"
+	"os"
+	"reflect"
+	"sort"
+	"strings"
+	"time"
+
+	"github.com/zerx-lab/wordZero/pkg/document"
+
+	"verif/harness/internal/rep"
+	"verif/harness/internal/schedx"
+	"verif/harness/internal/seqx"
+	"verif/harness/internal/shard"
+)
+
+// ---- the template universe
+
+type c17Src struct {
+	name    string // cache name
+	content string
+	extends string // cache name of the parent ("" = none)
+	doc     bool   // loaded from a document
+	tag     string
+}
+
+var c17Sources = []c17Src{
+	{name: "base", tag: "base.v1", content: "A {{#block \"x\"}}BX{{/block}} B {{#block \"y\"}}BY{{/block}} C {{v}}"},
+	{name: "base", tag: "base.v2", content: "A2 {{#block \"x\"}}B2X{{/block}} B2 {{#block \"y\"}}B2Y{{/block}} C2 {{v}}"},
+	{name: "c1", tag: "c1", extends: "base", content: "{{extends \"base\"}}{{#block \"x\"}}C1X {{v}}{{/block}}"},
+	{name: "c2", tag: "c2", extends: "base", content: "{{extends \"base\"}}{{#block \"x\"}}C2X{{/block}}{{#block \"y\"}}C2Y{{/block}}"},
+	{name: "g", tag: "g", extends: "c1", content: "{{extends \"c1\"}}{{#block \"y\"}}GY{{/block}}"},
+	{name: "d", tag: "d.doc", doc: true},
+	{name: "plain", tag: "plain", content: "{{#if c}}yes{{else}}no{{/if}} {{#each L}}{{n}};{{/each}} {{v}}"},
+}
+
+var c17Names = []string{"base", "c1", "c2", "g", "d", "plain", "missing"}
+
+func c17BaseDoc() *document.Document {
+	d := document.New()
+	p := d.AddParagraph("D {{v}} ")
+	p.AddFormattedText("bold {{w}}", &document.TextFormat{Bold: true})
+	d.AddHeader(document.HeaderFooterTypeDefault, "H {{v}}")
+	d.AddFooter(document.HeaderFooterTypeDefault, "F")
+	d.AddImageFromData(pngBytes(3, 3, 42), "logo.png", document.ImageFormatPNG, 3, 3, nil)
+	d.AddParagraph("{{#image pic}}")
+	t, _ := d.AddTable(&document.TableConfig{Rows: 1, Cols: 2, Width: 4000})
+	if t != nil {
+		t.SetCellText(0, 0, "cell {{v}}")
+	}
+	return d
+}
+
+func c17Data() *document.TemplateData { return c17DataV(0) }
+
+// c17DataV: variant 1 supplies a PNG for the image placeholder, variant 2 a JPEG, variant 0 none.
+func c17DataV(variant int) *document.TemplateData {
+	td := document.NewTemplateData()
+	switch variant {
+	case 1:
+		td.SetImageFromData("pic", pngBytes(2, 2, 200), nil)
+	case 2:
+		td.SetImageFromData("pic", jpegBytes(4, 2, 100), nil)
+	}
+	td.SetVariable("v", "V")
+	td.SetVariable("w", "W")
+	td.SetCondition("c", true)
+	td.SetList("L", []interface{}{map[string]interface{}{"n": "1"}, map[string]interface{}{"n": "2"}})
+	return td
+}
+
+// ---- observation of a render
+
+type c17Render struct {
+	Err   string
+	Text  string
+	Parts map[string]string // only for document templates
+	doc   *document.Document
+}
+
+func (r c17Render) String() string {
+	ks := make([]string, 0, len(r.Parts))
+	for k, v := range r.Parts {
+		ks = append(ks, k+"="+v)
+	}
+	sort.Strings(ks)
+	return "err=" + r.Err + "|text=" + r.Text + "|" + strings.Join(ks, ",")
+}
+
+func c17DocText(d *document.Document) string {
+	var out []string
+	for _, e := range d.Body.Elements {
+		switch x := e.(type) {
+		case *document.Paragraph:
+			s := ""
+			for _, r := range x.Runs {
+				s += r.Text.Content
+			}
+			out = append(out, s)
+		case *document.Table:
+			for _, row := range x.Rows {
+				for _, c := range row.Cells {
+					for _, p := range c.Paragraphs {
+						s := ""
+						for _, r := range p.Runs {
+							s += r.Text.Content
+						}
+						out = append(out, "cell:"+s)
+					}
+				}
+			}
+		}
+	}
+	return strings.Join(out, "\n")
+}
+
+func c17RenderOn(eng *document.TemplateEngine, name string, data *document.TemplateData, isDoc bool) c17Render {
+	var r c17Render
+	var d *document.Document
+	var err error
+	pan := guard(func() {
+		if isDoc {
+			d, err = eng.RenderTemplateToDocument(name, data)
+		} else {
+			d, err = eng.RenderToDocument(name, data)
+		}
+	})
+	if pan != "" {
+		r.Err = "panic: " + pan
+		return r
+	}
+	if err != nil {
+		r.Err = "error"
+		return r
+	}
+	if d == nil {
+		r.Err = "nil-document"
+		return r
+	}
+	r.Text = c17DocText(d)
+	r.doc = d
+	schedx.Yield("between-render-and-save") // no effect outside a schedule exploration
+	if isDoc {
+		if b, e := d.ToBytes(); e == nil {
+			r.Parts, _ = fastCanonParts(b)
+		} else {
+			r.Err = "save-error"
+		}
+	}
+	return r
+}
+
+// deepDump prints exported fields recursively (pointers followed, maps sorted); Documents are summarised by their canonical package.
+func deepDump(v reflect.Value, depth int, b *strings.Builder) {
+	if depth > 12 {
+		b.WriteString("…")
+		return
+	}
+	switch v.Kind() {
+	case reflect.Ptr, reflect.Interface:
+		if v.IsNil() {
+			b.WriteString("nil")
+			return
+		}
+		if d, ok := v.Interface().(*document.Document); ok {
+			if by, err := d.ToBytes(); err == nil {
+				parts, _ := fastCanonParts(by)
+				ks := make([]string, 0, len(parts))
+				for k, h := range parts {
+					ks = append(ks, k+"="+h)
+				}
+				sort.Strings(ks)
+				b.WriteString("Document{" + strings.Join(ks, ",") + "}")
+			} else {
+				b.WriteString("Document{unsaveable}")
+			}
+			return
+		}
+		b.WriteString("&")
+		deepDump(v.Elem(), depth+1, b)
+	case reflect.Struct:
+		b.WriteString(v.Type().Name() + "{")
+		for i := 0; i < v.NumField(); i++ {
+			f := v.Type().Field(i)
+			if f.PkgPath != "" {
+				continue
+			}
+			b.WriteString(f.Name + ":")
+			deepDump(v.Field(i), depth+1, b)
+			b.WriteString(",")
+		}
+		b.WriteString("}")
+	case reflect.Map:
+		keys := v.MapKeys()
+		sort.Slice(keys, func(i, j int) bool { return fmt.Sprint(keys[i]) < fmt.Sprint(keys[j]) })
+		b.WriteString("map[")
+		for _, k := range keys {
+			b.WriteString(fmt.Sprint(k) + ":")
+			deepDump(v.MapIndex(k), depth+1, b)
+			b.WriteString(",")
+		}
+		b.WriteString("]")
+	case reflect.Slice, reflect.Array:
+		if v.Kind() == reflect.Slice && v.Type().Elem().Kind() == reflect.Uint8 {
+			b.WriteString(fmt.Sprintf("bytes(%d:%s)", v.Len(), rep.Hash(string(v.Bytes()))))
+			return
+		}
+		b.WriteString("[")
+		for i := 0; i < v.Len(); i++ {
+			deepDump(v.Index(i), depth+1, b)
+			b.WriteString(",")
+		}
+		b.WriteString("]")
+	default:
+		b.WriteString(fmt.Sprintf("%v", v.Interface()))
+	}
+}
+
+func dumpOf(x interface{}) string {
+	var b strings.Builder
+	deepDump(reflect.ValueOf(x), 0, &b)
+	return b.String()
+}
+
+// ---- part S
+
+type c17Version struct {
+	src    int
+	parent *c17Version // the version bound at load time (nil = none / parent was absent)
+	id     int
+}
+
+type c17Op struct {
+	name    string
+	kind    string // load | render | remove | clear
+	src     int
+	tn      string
+	variant int // data variant for renders
+}
+
+var c17Ops []c17Op
+
+func init() {
+	for i, s := range c17Sources {
+		c17Ops = append(c17Ops, c17Op{name: "Load(" + s.tag + ")", kind: "load", src: i})
+	}
+	for _, n := range c17Names {
+		c17Ops = append(c17Ops, c17Op{name: "Render(" + n + ")", kind: "render", tn: n})
+	}
+	c17Ops = append(c17Ops,
+		c17Op{name: "Render(d,pic=png)", kind: "render", tn: "d", variant: 1},
+		c17Op{name: "Render(d,pic=jpeg)", kind: "render", tn: "d", variant: 2},
+		c17Op{name: "Remove(base)", kind: "remove", tn: "base"},
+		c17Op{name: "Remove(c1)", kind: "remove", tn: "c1"},
+		c17Op{name: "ClearCache", kind: "clear"},
+	)
+	names := make([]string, len(c17Ops))
+	for i, o := range c17Ops {
+		names[i] = o.name
+	}
+	seqx.Register(&seqx.Spec{Name: "C17", Ops: names, NoDeep: true, New: func(args json.RawMessage) seqx.Inst {
+		return &c17Inst{eng: document.NewTemplateEngine(), cache: map[string]*c17Version{}}
+	}})
+	shard.Register("C17sched", c17SchedWorker)
+	register("C17", "model_checking", runC17)
+}
+
+type c17Inst struct {
+	kept   []c17Kept
+	eng    *document.TemplateEngine
+	cache  map[string]*c17Version // bookkeeping: which version each name holds
+	nextID int
+	lastNT bool
+}
+
+func (i *c17Inst) Enabled(op int) bool  { return true }
+func (i *c17Inst) Nontrivial() bool     { return i.lastNT }
+func (i *c17Inst) Deep() []rep.Violation { return nil }
+
+func c17Load(eng *document.TemplateEngine, s c17Src) error {
+	var err error
+	if s.doc {
+		_, err = eng.LoadTemplateFromDocument(s.name, c17BaseDoc())
+	} else {
+		_, err = eng.LoadTemplate(s.name, s.content)
+	}
+	return err
+}
+
+// chain returns the versions T is bound to, oldest ancestor first.
+func (v *c17Version) chain() []*c17Version {
+	var c []*c17Version
+	for x := v; x != nil; x = x.parent {
+		c = append([]*c17Version{x}, c...)
+	}
+	return c
+}
+
+func (v *c17Version) key() string {
+	s := ""
+	for _, x := range v.chain() {
+		s += c17Sources[x.src].tag + ">"
+	}
+	return s
+}
+
+// c17Expected renders T on a fresh engine after loading exactly its bound chain.
+func c17Expected(v *c17Version, name string, variant int) c17Render {
+	eng := document.NewTemplateEngine()
+	if v != nil {
+		for _, x := range v.chain() {
+			if err := c17Load(eng, c17Sources[x.src]); err != nil {
+				return c17Render{Err: "load-error"}
+			}
+		}
+	}
+	isDoc := v != nil && c17Sources[v.src].doc
+	return c17RenderOn(eng, name, c17DataV(variant), isDoc)
+}
+
+// c17Kept is an earlier render result that must stay what it was.
+type c17Kept struct {
+	doc  *document.Document
+	sig  string
+	from string
+}
+
+func c17DocSig(d *document.Document) string {
+	b, err := d.ToBytes()
+	if err != nil {
+		return "save-error"
+	}
+	parts, zerr := fastCanonParts(b)
+	if zerr != "" {
+		return "unreadable"
+	}
+	ks := make([]string, 0, len(parts))
+	for k, h := range parts {
+		ks = append(ks, k+"="+h)
+	}
+	sort.Strings(ks)
+	return strings.Join(ks, ",")
+}
+
+// checkKept re-serialises the retained earlier results.
+func (i *c17Inst) checkKept(after string) []rep.Violation {
+	var out []rep.Violation
+	for _, k := range i.kept {
+		if now := c17DocSig(k.doc); now != k.sig {
+			cul := "package"
+			a, b := strings.Split(k.sig, ","), strings.Split(now, ",")
+			for x := 0; x < len(a) && x < len(b); x++ {
+				if a[x] != b[x] {
+					cul = c07PartClass(strings.SplitN(a[x], "=", 2)[0])
+					break
+				}
+			}
+			out = append(out, rep.Violation{Sig: "earlier-result-changed|" + cul, Clause: "a render result does not change when other renders happen later",
+				What: fmt.Sprintf("the document returned by %s saved differently (%s) after the later call %s", k.from, cul, after)})
+		}
+	}
+	return out
+}
+
+func (i *c17Inst) Apply(op int) (string, []rep.Violation) {
+	out, viol := i.apply1(op)
+	viol = append(viol, i.checkKept(c17Ops[op].name)...)
+	return out, viol
+}
+
+func (i *c17Inst) apply1(op int) (string, []rep.Violation) {
+	o := c17Ops[op]
+	i.lastNT = false
+	var viol []rep.Violation
+	switch o.kind {
+	case "load":
+		s := c17Sources[o.src]
+		var err error
+		if p := guard(func() { err = c17Load(i.eng, s) }); p != "" {
+			return "panic", []rep.Violation{{Sig: "panic|load|" + panicClass(p), Clause: "panic", What: o.name + ": " + p}}
+		}
+		if err != nil {
+			return "error", []rep.Violation{{Sig: "load-error|" + s.tag, Clause: "load", What: o.name + ": " + err.Error()}}
+		}
+		i.nextID++
+		v := &c17Version{src: o.src, id: i.nextID}
+		if s.extends != "" {
+			v.parent = i.cache[s.extends]
+		}
+		i.cache[s.name] = v
+		i.lastNT = true
+		return "ok", nil
+	case "remove":
+		if p := guard(func() { i.eng.RemoveTemplate(o.tn) }); p != "" {
+			return "panic", []rep.Violation{{Sig: "panic|remove|" + panicClass(p), Clause: "panic", What: p}}
+		}
+		delete(i.cache, o.tn)
+		return "ok", nil
+	case "clear":
+		if p := guard(func() { i.eng.ClearCache() }); p != "" {
+			return "panic", []rep.Violation{{Sig: "panic|clear|" + panicClass(p), Clause: "panic", What: p}}
+		}
+		i.cache = map[string]*c17Version{}
+		return "ok", nil
+	}
+	// render
+	v := i.cache[o.tn]
+	isDoc := v != nil && c17Sources[v.src].doc
+	data := c17DataV(o.variant)
+	dataBefore := dumpOf(data)
+	var tplBefore string
+	var tpl *document.Template
+	if v != nil {
+		tpl, _ = i.eng.GetTemplate(o.tn)
+		tplBefore = dumpOf(tpl)
+	}
+	got := c17RenderOn(i.eng, o.tn, data, isDoc)
+	again := c17RenderOn(i.eng, o.tn, data, isDoc)
+	want := c17Expected(v, o.tn, o.variant)
+	if got.doc != nil && isDoc {
+		i.kept = append(i.kept, c17Kept{doc: got.doc, sig: c17DocSig(got.doc), from: o.name})
+		if len(i.kept) > 2 {
+			i.kept = i.kept[1:]
+		}
+	}
+	class := "absent"
+	if v != nil {
+		class = v.key()
+		i.lastNT = true
+	}
+	if strings.HasPrefix(got.Err, "panic") {
+		viol = append(viol, rep.Violation{Sig: "panic|render|" + panicClass(got.Err), Clause: "panic", What: o.name + ": " + got.Err})
+	}
+	if got.String() != again.String() {
+		viol = append(viol, rep.Violation{Sig: "not-repeatable|" + class, Clause: "same template, same data, same result", What: fmt.Sprintf("%s twice in a row: %q then %q", o.name, got.String(), again.String()), Expect: got.String(), Got: again.String()})
+	}
+	if got.String() != want.String() {
+		viol = append(viol, rep.Violation{Sig: "depends-on-other-templates|" + class, Clause: "render independent of other loads/renders/removals",
+			What:   fmt.Sprintf("%s gives %q; on a fresh engine that loaded only the versions it is bound to (%s) it gives %q", o.name, got.Text+got.Err, class, want.Text+want.Err),
+			Expect: want.String(), Got: got.String()})
+	}
+	if d := dumpOf(data); d != dataBefore {
+		viol = append(viol, rep.Violation{Sig: "data-modified|" + class, Clause: "render never modifies the data", What: o.name + " changed the TemplateData"})
+	}
+	if tpl != nil {
+		if d := dumpOf(tpl); d != tplBefore {
+			cul := "template"
+			if isDoc {
+				cul = "template-or-base-document"
+			}
+			viol = append(viol, rep.Violation{Sig: "template-modified|" + cul + "|" + class, Clause: "render never modifies the template or its base document", What: o.name + " changed the template object (deep dump of exported fields, base document as canonical package)"})
+		}
+	}
+	return "render:" + class + ":" + map[bool]string{true: "error", false: "ok"}[got.Err != ""], viol
+}
+
+func (i *c17Inst) Key() string {
+	ks := make([]string, 0, len(i.cache))
+	for n, v := range i.cache {
+		ks = append(ks, n+"="+v.key())
+	}
+	sort.Strings(ks)
+	// the engine's own view of which names exist must agree (part of the key so that a disagreement is not merged away)
+	var have []string
+	for _, n := range c17Names {
+		if t, err := i.eng.GetTemplate(n); err == nil && t != nil {
+			have = append(have, n)
+		}
+	}
+	// earlier results that are still being watched are part of the state (at most the last two)
+	kept := ""
+	for _, k := range i.kept {
+		kept += k.from + ";"
+	}
+	return strings.Join(ks, ";") + "|" + strings.Join(have, ",") + "|" + kept
+}
+
+// ---- part C: schedules on one engine
+
+type c17Call struct {
+	Kind    string // load | render | remove
+	Src     int
+	Name    string
+	Variant int
+}
+
+func (c c17Call) String() string {
+	switch c.Kind {
+	case "load":
+		return "Load(" + c17Sources[c.Src].tag + ")"
+	case "remove":
+		return "Remove(" + c.Name + ")"
+	}
+	return fmt.Sprintf("Render(%s,data%d)", c.Name, c.Variant)
+}
+
+type c17Scen struct {
+	Pre     []int       // sources loaded before the threads start
+	Threads [][]c17Call // per thread call sequence
+}
+
+func ld(src int) c17Call     { return c17Call{Kind: "load", Src: src} }
+func rn(name string) c17Call { return c17Call{Kind: "render", Name: name} }
+func rm(name string) c17Call { return c17Call{Kind: "remove", Name: name} }
+func rv(name string, v int) c17Call {
+	return c17Call{Kind: "render", Name: name, Variant: v}
+}
+
+var c17Scens = []c17Scen{
+	{Pre: []int{0}, Threads: [][]c17Call{{rn("base")}, {ld(2)}}},
+	{Pre: []int{0}, Threads: [][]c17Call{{rn("base")}, {ld(2), rn("c1")}}},
+	{Pre: []int{0, 2}, Threads: [][]c17Call{{rn("c1")}, {ld(3)}}},
+	{Pre: []int{0, 2}, Threads: [][]c17Call{{rn("c1")}, {ld(1)}}},
+	{Pre: []int{0, 2}, Threads: [][]c17Call{{rn("c1")}, {rn("c1")}}},
+	{Pre: []int{0, 2}, Threads: [][]c17Call{{rn("c1")}, {rm("c1")}}},
+	{Pre: []int{0, 2}, Threads: [][]c17Call{{rn("base")}, {ld(4), rn("g")}}},
+	{Pre: []int{5}, Threads: [][]c17Call{{rn("d")}, {rn("d")}}},
+	{Pre: []int{5}, Threads: [][]c17Call{{rn("d")}, {ld(5)}}},
+	{Pre: []int{5}, Threads: [][]c17Call{{rv("d", 1)}, {rv("d", 2)}}},
+	{Pre: []int{6}, Threads: [][]c17Call{{rn("plain")}, {rn("plain")}}},
+	// three threads (thorough)
+	{Pre: []int{0}, Threads: [][]c17Call{{rn("base")}, {ld(2)}, {rn("c1")}}},
+	{Pre: []int{0, 2}, Threads: [][]c17Call{{rn("c1")}, {rn("c1")}, {rm("c1")}}},
+	{Pre: []int{0, 2}, Threads: [][]c17Call{{rn("c1")}, {ld(3)}, {rn("base")}}},
+	{Pre: []int{0, 2, 3}, Threads: [][]c17Call{{rn("c1")}, {rn("c2")}, {ld(1)}}},
+}
+
+func c17DoCall(eng *document.TemplateEngine, c c17Call) string {
+	switch c.Kind {
+	case "load":
+		var err error
+		if p := guard(func() { err = c17Load(eng, c17Sources[c.Src]) }); p != "" {
+			return "panic: " + p
+		}
+		if err != nil {
+			return "load-error"
+		}
+		return "loaded"
+	case "remove":
+		if p := guard(func() { eng.RemoveTemplate(c.Name) }); p != "" {
+			return "panic: " + p
+		}
+		return "removed"
+	}
+	return c17RenderOn(eng, c.Name, c17DataV(c.Variant), c.Name == "d").String()
+}
+
+func c17NewEngine(pre []int) *document.TemplateEngine {
+	eng := document.NewTemplateEngine()
+	for _, s := range pre {
+		if err := c17Load(eng, c17Sources[s]); err != nil {
+			panic(err)
+		}
+	}
+	return eng
+}
+
+// c17SeqOutcomes: the result tuples of all sequential orders of the threads' calls.
+func c17SeqOutcomes(sc c17Scen) map[string][]int {
+	out := map[string][]int{}
+	lens := make([]int, len(sc.Threads))
+	for i, t := range sc.Threads {
+		lens[i] = len(t)
+	}
+	c07Merges(lens, func(who []int) {
+		eng := c17NewEngine(sc.Pre)
+		pos := make([]int, len(sc.Threads))
+		res := make([][]string, len(sc.Threads))
+		for _, t := range who {
+			res[t] = append(res[t], c17DoCall(eng, sc.Threads[t][pos[t]]))
+			pos[t]++
+		}
+		k := fmt.Sprint(res)
+		if _, ok := out[k]; !ok {
+			out[k] = append([]int{}, who...)
+		}
+	})
+	return out
+}
+
+type c17SchedArgs struct {
+	Bound   int
+	Three   bool
+	MaxExec int64
+}
+
+func c17SchedWorker(c *shard.Ctx) {
+	var a c17SchedArgs
+	json.Unmarshal(c.Args, &a)
+	schedx.Install()
+	for si, sc := range c17Scens {
+		idx := int64(si)
+		if len(sc.Threads) > 2 && !a.Three {
+			continue
+		}
+		if !c.Begin(idx, func() interface{} { return c17ScenDesc(sc) }) {
+			continue
+		}
+		P := c.P
+		allowed := c17SeqOutcomes(sc)
+		desc := c17ScenDesc(sc)
+		var res [][]string
+		scenario := func() ([]func(), func(r *schedx.Result)) {
+			eng := c17NewEngine(sc.Pre)
+			res = make([][]string, len(sc.Threads))
+			bodies := make([]func(), len(sc.Threads))
+			for t := range sc.Threads {
+				t := t
+				bodies[t] = func() {
+					for _, call := range sc.Threads[t] {
+						res[t] = append(res[t], c17DoCall(eng, call))
+					}
+				}
+			}
+			return bodies, nil
+		}
+		outcomes := map[string]bool{}
+		onExec := func(r *schedx.Result) {
+			P.Evals++
+			P.Traces++
+			P.Transitions += int64(len(r.Points))
+			cs := shardCase(c, "C17sched", idx, map[string]interface{}{"scenario": desc, "schedule": r.Choices})
+			if r.Deadlock || r.Horizon || r.Hang {
+				kind := map[bool]string{true: "deadlock", false: "no-termination"}[r.Deadlock]
+				P.Violate(rep.Violation{Sig: "schedule|" + kind, Clause: "safe concurrent use", What: fmt.Sprintf("%v: %s under schedule %v", desc, kind, r.Choices), Case: cs, Depth: len(r.Choices)})
+				return
+			}
+			for t, p := range r.Panics {
+				P.Violate(rep.Violation{Sig: "schedule|panic|" + panicClass(p), Clause: "safe concurrent use", What: fmt.Sprintf("%v: thread %d panics under schedule %v: %s", desc, t, r.Choices, p), Case: cs, Depth: len(r.Choices)})
+			}
+			k := fmt.Sprint(res)
+			outcomes[k] = true
+			if _, ok := allowed[k]; !ok && len(r.Panics) == 0 {
+				P.Violate(rep.Violation{Sig: "not-sequentially-explainable|" + c17ScenClass(sc), Clause: "each concurrent call equals what it produces in some sequential order", Depth: len(r.Choices),
+					What:   fmt.Sprintf("%v under schedule %v gives %s, which no sequential order of the same calls gives (%d sequential outcomes)", desc, r.Choices, trunc(k, 400), len(allowed)),
+					Expect: keysOf(allowed), Got: k, Case: cs})
+			}
+		}
+		st := exploreTiers(scenario, a.MaxExec, c.Heartbeat, true, onExec, P, fmt.Sprint(desc))
+		for range outcomes {
+			P.Outcome("sched-outcome")
+		}
+		P.Keys = append(P.Keys, "sched:"+fmt.Sprint(desc))
+		if st.Branching > 0 {
+			P.Nontrivial = append(P.Nontrivial, "sched:"+fmt.Sprint(desc))
+		}
+		P.Add("schedules_executed", st.Executions)
+		P.Add("scheduling_points_total", st.Points)
+		P.Add("branching_points_total", st.Branching)
+		P.Add("distinct_concurrent_outcomes", int64(len(outcomes)))
+		P.Add("sequential_outcomes", int64(len(allowed)))
+		if int64(st.MaxPoints) > P.Extra["max_points_in_one_execution"] {
+			P.Extra["max_points_in_one_execution"] = int64(st.MaxPoints)
+		}
+		if st.Incomplete {
+			P.Incomplete = true
+			P.Notes = append(P.Notes, fmt.Sprintf("scenario %v: exploration stopped after %d schedules (cap hit: %v, preemption bound completed: %d) %v", desc, st.Executions, st.Capped, st.BoundDone, st.Divergences))
+		}
+		for _, d := range st.Divergences {
+			P.HarnessErrs = append(P.HarnessErrs, "schedule replay divergence: "+d)
+		}
+		if len(P.Samples) < 2 {
+			P.Samples = append(P.Samples, map[string]interface{}{"part": "schedules", "scenario": desc, "schedules_executed": st.Executions, "max_points": st.MaxPoints, "distinct_outcomes": len(outcomes), "sequential_outcomes": len(allowed)})
+		}
+	}
+}
+
+func trunc(s string, n int) string {
+	if len(s) > n {
+		return s[:n] + "…"
+	}
+	return s
+}
+
+func keysOf(m map[string][]int) []string {
+	var ks []string
+	for k := range m {
+		ks = append(ks, trunc(k, 300))
+	}
+	sort.Strings(ks)
+	return ks
+}
+
+func c17ScenDesc(sc c17Scen) map[string]interface{} {
+	pre := []string{}
+	for _, s := range sc.Pre {
+		pre = append(pre, c17Sources[s].tag)
+	}
+	th := [][]string{}
+	for _, t := range sc.Threads {
+		var l []string
+		for _, c := range t {
+			l = append(l, c.String())
+		}
+		th = append(th, l)
+	}
+	return map[string]interface{}{"preloaded": pre, "threads": th}
+}
+
+func c17ScenClass(sc c17Scen) string {
+	kinds := map[string]bool{}
+	for _, t := range sc.Threads {
+		for _, c := range t {
+			kinds[c.Kind] = true
+		}
+	}
+	var ks []string
+	for k := range kinds {
+		ks = append(ks, k)
+	}
+	sort.Strings(ks)
+	return strings.Join(ks, "+")
+}
+
+// ---- part R
+
+func c17RacePass() {
+	var bodies []func()
+	for _, sc := range c17Scens {
+		sc := sc
+		// one shared engine per scenario; the bodies of all threads become race-pass bodies run pairwise
+		eng := c17NewEngine(sc.Pre)
+		for t := range sc.Threads {
+			t := t
+			bodies = append(bodies, func() {
+				for _, call := range sc.Threads[t] {
+					c17DoCall(eng, call)
+				}
+			})
+		}
+	}
+	// pair only bodies of the same scenario: they share an engine
+	warm := 60
+	reps := 3
+	if os.Getenv("VCHECK_TIER") == "thorough" {
+		warm, reps = 200, 10
+	}
+	for i := 0; i < warm; i++ {
+		for _, b := range bodies {
+			b()
+		}
+	}
+	k := 0
+	for _, sc := range c17Scens {
+		n := len(sc.Threads)
+		group := bodies[k : k+n]
+		k += n
+		for rp := 0; rp < reps; rp++ {
+			start := make(chan struct{})
+			done := make([]chan struct{}, n)
+			for j := 0; j < n; j++ {
+				f := group[(j+rp)%n]
+				done[j] = make(chan struct{})
+				go func(f func(), d chan struct{}) {
+					<-start
+					f()
+					close(d)
+				}(f, done[j])
+			}
+			close(start)
+			for _, d := range done {
+				<-d
+			}
+		}
+	}
+}
+
+func runC17(r *rep.Run) {
+	depth, bound := 4, 2
+	maxExec := int64(6000)
+	if r.Tier == "thorough" {
+		depth = 6
+		maxExec = 100000
+	}
+	r.Rule = "part S: BFS over histories of 17 engine calls (7 loads incl. a reloaded base version, two children overriding the same block differently, a grandchild, a document template and a plain template; Render of every name incl. a missing one; two removals; ClearCache) on one real TemplateEngine, deduplicated on the bookkeeping of which version each name holds and which versions it was bound to at load time; every Render in every reached state is compared with the render, on a fresh engine, after loading exactly the bound chain (differential oracle), rendered twice, and the deep dumps of data, template object and base document are compared before/after; part C: every schedule with <= 2 preemptions of 2-3 goroutines calling Load/Render/Remove on one engine (points at every lock operation and at every statement of every function that touches Template/TemplateBlock/TemplateEngine fields), result tuple must be produced by some sequential order of the same calls; part R: same bodies in a free-running -race build; non-trivial = a load, or a render of a present template / a scenario with a branching point"
+	r.Bounds["depth"] = depth
+	r.Bounds["ops"] = len(c17Ops)
+	r.Bounds["preemption_bound"] = map[string]int{"statement-level points": 1, "lock operations and function entries": 2}
+	r.Bounds["scenarios"] = len(c17Scens)
+	r.Bounds["max_schedules_per_scenario"] = maxExec
+	r.Assume = []string{
+		"a derived template renders against the parent version that was registered when it was loaded (load-time binding); later reloads/removals of the parent name do not rebind - this is the reading under which 'regardless of which other templates were loaded or removed in between' can hold at all",
+		"between two scheduling points a thread runs alone; unsynchronised accesses are looked for by the race detector only",
+	}
+	t0 := time.Now()
+	r.Merge(seqx.Search("C17", seqx.Opts{Depth: depth, Deadline: r.Deadline}))
+	r.P.Add("part_S_ms", time.Since(t0).Milliseconds())
+	if r.OutOfTime() {
+		return
+	}
+	t0 = time.Now()
+	runShards(r, "C17sched", c17SchedArgs{Bound: bound, Three: r.Tier == "thorough", MaxExec: maxExec}, 300*time.Second, nil)
+	r.P.Add("part_C_ms", time.Since(t0).Milliseconds())
+	runRacePass(r, "C17", "goroutines loading/rendering/removing templates on one engine")
+}
